@@ -346,11 +346,220 @@ fn fill_rdata<const N: usize>(rd: &mut [u8; N], aw: &[u8], upcase: bool, time: &
     assert!(c == N, "harness: RDATA length constant is wrong");
 }
 
-/// L = request MAC length, N = request RDATA length (algorithm name + 16 + L).
-/// `accept`: what the MAC model answers when asked to verify (S5, forced).
-/// `upcase`: owner name and algorithm name arrive in upper case.
-fn exchange<const L: usize, const N: usize>(alg: AlgSel, keysel: KeySel, accept: bool, clock: Clock, upcase: bool) {
-    // ---- the request: 17-octet query (root QNAME) + one TSIG RR
+/// What the harness expects of the response.
+#[derive(Clone, Copy)]
+struct Expect {
+    rcode: u16,
+    tsig_error: u16,
+    signed: bool,
+}
+
+/// Finishes the response and checks it with the independent decoder:
+/// question echoed, no answer/authority data, exactly one TSIG RR (last),
+/// its fields, and (for signed responses) its MAC and the MAC input.
+fn check_response(
+    response: Writer,
+    buf_ptr: *const [u8; 512],
+    x: Expect,
+    aw: &[u8],
+    out: usize,
+    key: &[u8; 2],
+    req_mac: &[u8],
+    oid: u16,
+    time: &[u8; 6],
+    now: &[u8; 6],
+) {
+    rec_reset();
+    let (n, ret_mac) = response.finish_with_mac();
+    // the Writer is gone; its buffer can be read again
+    let buf: &[u8; 512] = unsafe { &*buf_ptr };
+    assert!(n >= 12 && n <= 160, "[C10] response length");
+    let d = ref_decode_lim(buf, n, [1, 0, 0, 1], 4);
+    assert!(d.wellformed && d.pointers_ok, "[C10] the response decodes completely");
+    assert!(
+        d.counts[0] == 1 && d.counts[1] == 0 && d.counts[2] == 0 && d.counts[3] == 1,
+        "[C10] question echoed, no answer/authority records, exactly the TSIG RR in the additional section"
+    );
+    assert!(d.n_recs == 1 && d.n_tsig == 1 && d.tsig_placement_ok, "[C10] the TSIG RR is the last record");
+    let rcode = d.flags & 0xf;
+    assert!(rcode == x.rcode, "[C10] RCODE: NOERROR when authenticated, NOTAUTH for bad key/signature/time, FORMERR for an unacceptable MAC size");
+    let rec = d.recs[0];
+    assert!(rec.owner_at == 17, "[C10] the TSIG RR follows the echoed question");
+    assert!(rec.rtype == T_TSIG && rec.class == 255 && rec.ttl == 0, "[C10] TSIG RR has class ANY and TTL 0");
+    assert!(
+        rec.rd_at == 17 + 3 + 10 && buf[17] == 1 && buf[18] == b'k' && buf[19] == 0,
+        "[C10] the response TSIG RR is owned by the request's key name"
+    );
+    let r0 = 30;
+    assert!(ref_tsig_rdata_ok(buf, r0, rec.rdlen), "[C10] response TSIG RDATA has the RFC 8945 4.2 layout");
+    let al = aw.len();
+    let mut i = 0;
+    while i < al {
+        assert!(buf[r0 + i] == aw[i], "[C10] response TSIG carries the request's algorithm name");
+        i += 1;
+    }
+    let x_maclen = if x.signed { out } else { 0 };
+    let x_other = if x.tsig_error == TE_BADTIME { 6 } else { 0 };
+    assert!(rec.rdlen == al + 16 + x_maclen + x_other, "[C10] response TSIG RDATA length");
+    // time signed: the server's time, except for BADTIME where it is the request's (RFC 8945 5.2.3)
+    let x_time: &[u8; 6] = if x.tsig_error == TE_BADTIME { time } else { now };
+    let mut i = 0;
+    while i < 6 {
+        assert!(buf[r0 + al + i] == x_time[i], "[C10] response time signed");
+        i += 1;
+    }
+    assert!(be16(buf, r0 + al + 6) == 300, "[C10] response fudge is 300 s");
+    assert!(
+        be16(buf, r0 + al + 8) as usize == x_maclen,
+        "[C10] response MAC present exactly for NOERROR and BADTIME; empty for BADKEY, BADSIG and FORMERR"
+    );
+    let p = r0 + al + 10 + x_maclen;
+    assert!(be16(buf, p) == oid, "[C10] response original ID is the request's");
+    if x.rcode != RC_FORMERR {
+        assert!(be16(buf, p + 2) == x.tsig_error, "[C10] TSIG error: 0, BADSIG(16), BADKEY(17) or BADTIME(18)");
+    }
+    assert!(be16(buf, p + 4) as usize == x_other, "[C10] other data only for BADTIME");
+    if x.tsig_error == TE_BADTIME {
+        let mut i = 0;
+        while i < 6 {
+            assert!(buf[p + 6 + i] == now[i], "[C10] BADTIME other data is the server's time");
+            i += 1;
+        }
+    }
+    assert!(ret_mac.is_some() == x.signed, "[C10] finish_with_mac returns a MAC exactly for signed responses");
+    if x.signed {
+        let mut e = Stream::new();
+        e.prior_mac(req_mac);
+        e.message(buf, 17, oid);
+        let other: &[u8] = if x.tsig_error == TE_BADTIME { now } else { &[] };
+        e.variables(&KEY_NAME_WIRE, aw, x_time, 300, x.tsig_error, other);
+        recorded_is(&e);
+        let mm = model_mac(key, &e.s, e.n, out);
+        let rm = ret_mac.as_ref().unwrap();
+        assert!(rm.len() == out, "[C10] returned MAC length");
+        let mut i = 0;
+        while i < out {
+            assert!(buf[r0 + al + 10 + i] == mm[i], "[C10] response MAC = MAC(request MAC || response || TSIG variables) under the request's key");
+            assert!(rm[i] == mm[i], "[C10] returned MAC equals the one in the RR");
+            i += 1;
+        }
+    } else {
+        let mut got = [0u8; REC_CAP];
+        let (_, made, _) = rec_fetch(&mut got);
+        assert!(made == 0, "[C10] no MAC is computed for an unsigned response");
+    }
+    core::mem::forget(ret_mac);
+}
+
+/// The response under construction, as Server::handle_message sets it up
+/// for a 17-octet query with root QNAME.
+fn start_response<'a>(buf: &'a mut [u8; 512], msg: &[u8; 17]) -> Writer<'a> {
+    let mut response = Writer::new(buf, 512).unwrap();
+    response.set_id(be16(msg, 0));
+    response.set_qr(true);
+    let question = Question {
+        qname: Name::root().to_owned(),
+        qtype: Qtype::from(be16(msg, 13)),
+        qclass: Qclass::from(be16(msg, 15)),
+    };
+    response.add_question(&question).unwrap();
+    core::mem::forget(question);
+    response
+}
+
+fn read_tsig<'a, const N: usize>(rd: &'a [u8; N], upcase: bool) -> ReadTsigRr<'a> {
+    let owner_wire: [u8; 3] = [1, if upcase { b'K' } else { b'k' }, 0];
+    let rr = ReadRr {
+        owner: Name::try_from_uncompressed_all(&owner_wire).unwrap(),
+        rr_type: Type::TSIG,
+        class: Qclass::ANY.into(),
+        ttl: Ttl::from(0),
+        rdata: Cow::Borrowed((&rd[..]).try_into().unwrap()),
+    };
+    match ReadTsigRr::try_from(rr) {
+        Ok(t) => t,
+        Err(_) => {
+            assert!(false, "[C10] a well-formed TSIG RR is rejected");
+            unreachable!()
+        }
+    }
+}
+
+/// Steps 1 and 2: algorithm and key lookup (no MAC is involved; the request
+/// MAC is 10 symbolic octets).  N = RDATA length = algorithm name + 26.
+fn lookup_case<const N: usize>(alg: AlgSel, keysel: KeySel, upcase: bool) {
+    let h: [u8; 4] = kani::any();
+    let q: [u8; 4] = kani::any();
+    let msg: [u8; 17] = [h[0], h[1], h[2], h[3], 0, 1, 0, 0, 0, 0, 0, 1, 0, q[0], q[1], q[2], q[3]];
+    let key: [u8; 2] = kani::any();
+    let mac: [u8; 10] = kani::any();
+    let oid: u16 = kani::any();
+    let req_error: u16 = kani::any();
+    let time: [u8; 6] = kani::any();
+    let fudge: u16 = kani::any();
+    let now: [u8; 6] = kani::any();
+    let aw = alg_wire(alg);
+    let mut rd = [0u8; N];
+    fill_rdata::<N>(&mut rd, aw, upcase, &time, fudge, &mac, oid, req_error);
+    let tsig_rr = read_tsig::<N>(&rd, upcase);
+
+    let mut keys = TsigKeyMap::new();
+    let other_alg = if alg == AlgSel::Sha1 { Algorithm::HmacSha256 } else { Algorithm::HmacSha1 };
+    let this_alg = if alg == AlgSel::Sha1 { Algorithm::HmacSha1 } else { Algorithm::HmacSha256 };
+    let kbox: Box<[u8]> = Box::new([key[0], key[1]]);
+    match keysel {
+        KeySel::Match => {
+            keys.insert(Name::try_from_uncompressed_all(&KEY_NAME_WIRE).unwrap(), (this_alg, kbox));
+        }
+        KeySel::OtherAlg => {
+            keys.insert(Name::try_from_uncompressed_all(&KEY_NAME_WIRE).unwrap(), (other_alg, kbox));
+        }
+        KeySel::Absent => {
+            // no key at all
+            core::mem::forget(kbox);
+        }
+    }
+
+    let mut buf = [0u8; 512];
+    let buf_ptr: *const [u8; 512] = &buf;
+    let mut response = start_response(&mut buf, &msg);
+    rec_reset();
+    let now_ts = TimeSigned::from(now);
+    let found_alg = find_tsig_algorithm_or_write_error(&tsig_rr, now_ts, &mut response);
+    let alg_known = alg != AlgSel::Unknown;
+    assert!(found_alg.is_some() == alg_known, "[C10] exactly hmac-sha1 and hmac-sha256 are known algorithms");
+    let mut found_key = false;
+    if let Some(a) = found_alg {
+        assert!(a == this_alg, "[C10] the algorithm found is the one named in the TSIG RR");
+        if let Some(k) = find_tsig_key_or_write_error(&tsig_rr, a, &keys, now_ts, &mut response) {
+            found_key = true;
+            assert!(k.len() == 2 && k[0] == key[0] && k[1] == key[1], "[C10] the key found is the configured secret");
+        }
+    }
+    assert!(found_key == (alg_known && keysel == KeySel::Match), "[C10] a key is found exactly when it is configured under that name for that algorithm");
+    if !found_key {
+        let x = Expect {
+            rcode: RC_NOTAUTH,
+            tsig_error: TE_BADKEY,
+            signed: false,
+        };
+        check_response(response, buf_ptr, x, aw, 32, &key, &mac, oid, &time, &now);
+    } else {
+        // nothing has been decided yet: no TSIG RR, RCODE untouched
+        let n = response.finish();
+        let b: &[u8; 512] = unsafe { &*buf_ptr };
+        assert!(n == 17 && b[3] & 0xf == 0 && be16(b, 10) == 0, "[C10] a successful lookup leaves the response untouched");
+    }
+    kani::cover!(true, "lookup decided");
+    core::mem::forget(tsig_rr);
+    core::mem::forget(keys);
+}
+
+/// Step 3: verify_tsig_and_write_tsig_rr with the algorithm and key that the
+/// lookups hand over.  L = request MAC length, N = request RDATA length
+/// (algorithm name + 16 + L).  `accept`: what the MAC model answers when asked
+/// to verify (S5, forced).
+fn verify_case<const L: usize, const N: usize>(alg: AlgSel, accept: bool, clock: Clock, upcase: bool) {
     let h: [u8; 4] = kani::any();
     let q: [u8; 4] = kani::any();
     let msg: [u8; 17] = [h[0], h[1], h[2], h[3], 0, 1, 0, 0, 0, 0, 0, 1, 0, q[0], q[1], q[2], q[3]];
@@ -365,69 +574,18 @@ fn exchange<const L: usize, const N: usize>(alg: AlgSel, keysel: KeySel, accept:
     let aw = alg_wire(alg);
     let mut rd = [0u8; N];
     fill_rdata::<N>(&mut rd, aw, upcase, &time, fudge, &mac, oid, req_error);
-    let owner_wire: [u8; 3] = [1, if upcase { b'K' } else { b'k' }, 0];
-    let rr = ReadRr {
-        owner: Name::try_from_uncompressed_all(&owner_wire).unwrap(),
-        rr_type: Type::TSIG,
-        class: Qclass::ANY.into(),
-        ttl: Ttl::from(0),
-        rdata: Cow::Borrowed((&rd[..]).try_into().unwrap()),
-    };
-    let tsig_rr = match ReadTsigRr::try_from(rr) {
-        Ok(t) => t,
-        Err(_) => {
-            assert!(false, "[C10] a well-formed TSIG RR is rejected");
-            return;
-        }
-    };
-
-    // ---- the server's key set
-    let mut keys = TsigKeyMap::new();
-    let other_alg = if alg == AlgSel::Sha1 { Algorithm::HmacSha256 } else { Algorithm::HmacSha1 };
+    let tsig_rr = read_tsig::<N>(&rd, upcase);
     let this_alg = if alg == AlgSel::Sha1 { Algorithm::HmacSha1 } else { Algorithm::HmacSha256 };
-    let kbox: Box<[u8]> = Box::new([key[0], key[1]]);
-    match keysel {
-        KeySel::Match => {
-            keys.insert(Name::try_from_uncompressed_all(&KEY_NAME_WIRE).unwrap(), (this_alg, kbox));
-        }
-        KeySel::OtherAlg => {
-            keys.insert(Name::try_from_uncompressed_all(&KEY_NAME_WIRE).unwrap(), (other_alg, kbox));
-        }
-        KeySel::Absent => {
-            keys.insert(Name::try_from_uncompressed_all(&[1, b'j', 0]).unwrap(), (this_alg, kbox));
-        }
-    }
+    let out = if alg == AlgSel::Sha1 { 20 } else { 32 };
 
-    // ---- the response under construction, as Server::handle_message sets it up
     let mut buf = [0u8; 512];
-    let mut response = Writer::new(&mut buf, 512).unwrap();
-    response.set_id(be16(&msg, 0));
-    response.set_qr(true);
-    let question = Question {
-        qname: Name::root().to_owned(),
-        qtype: Qtype::from(be16(&msg, 13)),
-        qclass: Qclass::from(be16(&msg, 15)),
-    };
-    response.add_question(&question).unwrap();
-
-    // ---- the three steps of handle_message_with_context
+    let buf_ptr: *const [u8; 512] = &buf;
+    let mut response = start_response(&mut buf, &msg);
     rec_reset();
     rec_force(if accept { 1 } else { 2 });
-    let now_ts = TimeSigned::from(now);
-    let mut verified = false;
-    let mut reached_verify = false;
-    let found_alg = find_tsig_algorithm_or_write_error(&tsig_rr, now_ts, &mut response);
-    if let Some(a) = found_alg {
-        if let Some(k) = find_tsig_key_or_write_error(&tsig_rr, a, &keys, now_ts, &mut response) {
-            reached_verify = true;
-            verified = verify_tsig_and_write_tsig_rr(&tsig_rr, &msg, a, k, now_ts, &mut response);
-        }
-    }
+    let verified = verify_tsig_and_write_tsig_rr(&tsig_rr, &msg, this_alg, &key, TimeSigned::from(now), &mut response);
 
-    // ---- oracle for the verdict
-    let out = if alg == AlgSel::Sha1 { 20 } else { 32 };
-    let alg_known = alg != AlgSel::Unknown;
-    let key_ok = keysel == KeySel::Match;
+    // ---- oracle
     let size_ok = ref_size_ok(out, L);
     let time_ok = {
         let a = u48(&time);
@@ -435,27 +593,19 @@ fn exchange<const L: usize, const N: usize>(alg: AlgSel, keysel: KeySel, accept:
         let d = if a > b { a - b } else { b - a };
         d <= fudge as u64
     };
-    assert!(found_alg.is_some() == alg_known, "[C10] exactly hmac-sha1 and hmac-sha256 are known algorithms");
-    if alg_known {
-        assert!(found_alg == Some(this_alg), "[C10] the algorithm found is the one named in the TSIG RR");
-    }
-    assert!(reached_verify == (alg_known && key_ok), "[C10] verification is attempted exactly for a configured key with the matching algorithm");
-    // expected: (rcode, TSIG error, signed?, badtime?)
-    let (x_rcode, x_err, x_signed) = if !alg_known || !key_ok {
-        (RC_NOTAUTH, TE_BADKEY, false)
-    } else if !size_ok {
-        (RC_FORMERR, TE_BADSIG, false)
+    let x = if !size_ok {
+        Expect { rcode: RC_FORMERR, tsig_error: TE_BADSIG, signed: false }
     } else if !accept {
-        (RC_NOTAUTH, TE_BADSIG, false)
+        Expect { rcode: RC_NOTAUTH, tsig_error: TE_BADSIG, signed: false }
     } else if !time_ok {
-        (RC_NOTAUTH, TE_BADTIME, true)
+        Expect { rcode: RC_NOTAUTH, tsig_error: TE_BADTIME, signed: true }
     } else {
-        (RC_NOERROR, 0, true)
+        Expect { rcode: RC_NOERROR, tsig_error: 0, signed: true }
     };
-    assert!(verified == (x_rcode == RC_NOERROR), "[C10] the request counts as authenticated exactly when key, algorithm, MAC size, MAC and time are all good");
+    assert!(verified == (x.rcode == RC_NOERROR), "[C10] the request counts as authenticated exactly when MAC size, MAC and time are all good");
 
     // ---- the MAC check that was made on the request
-    if alg_known && key_ok && size_ok {
+    if size_ok {
         let mut tag = [0u8; TAG_CAP];
         let tl = rec_tag(&mut tag);
         assert!(tl == L, "[C10] the request MAC submitted for verification has the length given in the TSIG RR");
@@ -471,91 +621,15 @@ fn exchange<const L: usize, const N: usize>(alg: AlgSel, keysel: KeySel, accept:
     } else {
         let mut got = [0u8; REC_CAP];
         let (_, made, _) = rec_fetch(&mut got);
-        assert!(made == 0, "[C10] no MAC is computed for an unknown key/algorithm or an unacceptable MAC size");
+        assert!(made == 0, "[C10] no MAC is computed for an unacceptable MAC size");
     }
-
-    // ---- finish the response and decode it independently
-    rec_reset();
-    let (n, ret_mac) = response.finish_with_mac();
-    assert!(n >= 12 && n <= 160, "[C10] response length");
-    let d = ref_decode_lim(&buf, n, [1, 0, 0, 1], 4);
-    assert!(d.wellformed && d.pointers_ok, "[C10] the response decodes completely");
-    assert!(d.counts[0] == 1 && d.counts[1] == 0 && d.counts[2] == 0 && d.counts[3] == 1, "[C10] question echoed, no answer/authority records, exactly the TSIG RR in the additional section");
-    assert!(d.n_recs == 1 && d.n_tsig == 1 && d.tsig_placement_ok, "[C10] the TSIG RR is the last record");
-    let rcode = d.flags & 0xf;
-    assert!(rcode == x_rcode, "[C10] RCODE: NOERROR when authenticated, NOTAUTH for bad key/signature/time, FORMERR for an unacceptable MAC size");
-    let rec = d.recs[0];
-    assert!(rec.owner_at == 17, "[C10] the TSIG RR follows the echoed question");
-    assert!(rec.rtype == T_TSIG && rec.class == 255 && rec.ttl == 0, "[C10] TSIG RR has class ANY and TTL 0");
-    assert!(
-        rec.rd_at == rec.owner_at + 3 + 10 && buf[rec.owner_at] == 1 && buf[rec.owner_at + 1] == b'k' && buf[rec.owner_at + 2] == 0,
-        "[C10] the response TSIG RR is owned by the request's key name"
-    );
-    assert!(ref_tsig_rdata_ok(&buf, rec.rd_at, rec.rdlen), "[C10] response TSIG RDATA has the RFC 8945 4.2 layout");
-    let al = aw.len();
-    let r0 = rec.rd_at;
-    let mut i = 0;
-    while i < al {
-        assert!(buf[r0 + i] == aw[i], "[C10] response TSIG carries the request's algorithm name");
-        i += 1;
-    }
-    let x_maclen = if x_signed { out } else { 0 };
-    let x_other = if x_err == TE_BADTIME { 6 } else { 0 };
-    assert!(rec.rdlen == al + 16 + x_maclen + x_other, "[C10] response TSIG RDATA length");
-    // time signed: the server's time, except for BADTIME where it is the request's (RFC 8945 5.2.3)
-    let x_time = if x_err == TE_BADTIME { time } else { now };
-    let mut i = 0;
-    while i < 6 {
-        assert!(buf[r0 + al + i] == x_time[i], "[C10] response time signed");
-        i += 1;
-    }
-    assert!(be16(&buf, r0 + al + 6) == 300, "[C10] response fudge is 300 s");
-    assert!(be16(&buf, r0 + al + 8) as usize == x_maclen, "[C10] response MAC present exactly for NOERROR and BADTIME; empty for BADKEY, BADSIG and FORMERR");
-    let p = r0 + al + 10 + x_maclen;
-    assert!(be16(&buf, p) == oid, "[C10] response original ID is the request's");
-    if x_rcode != RC_FORMERR {
-        assert!(be16(&buf, p + 2) == x_err, "[C10] TSIG error: 0, BADSIG(16), BADKEY(17) or BADTIME(18)");
-    }
-    assert!(be16(&buf, p + 4) as usize == x_other, "[C10] other data only for BADTIME");
-    if x_err == TE_BADTIME {
-        let mut i = 0;
-        while i < 6 {
-            assert!(buf[p + 6 + i] == now[i], "[C10] BADTIME other data is the server's time");
-            i += 1;
-        }
-    }
-    // ---- the response MAC
-    assert!(ret_mac.is_some() == x_signed, "[C10] finish_with_mac returns a MAC exactly for signed responses");
-    if x_signed {
-        let mut e = Stream::new();
-        e.prior_mac(&mac);
-        e.message(&buf, 17, oid);
-        let other: &[u8] = if x_err == TE_BADTIME { &now } else { &[] };
-        e.variables(&KEY_NAME_WIRE, aw, &x_time, 300, x_err, other);
-        recorded_is(&e);
-        let mm = model_mac(&key, &e.s, e.n, out);
-        let rm = ret_mac.as_ref().unwrap();
-        assert!(rm.len() == out, "[C10] returned MAC length");
-        let mut i = 0;
-        while i < out {
-            assert!(buf[r0 + al + 10 + i] == mm[i], "[C10] response MAC = MAC(request MAC || response || TSIG variables) under the request's key");
-            assert!(rm[i] == mm[i], "[C10] returned MAC equals the one in the RR");
-            i += 1;
-        }
-    } else {
-        let mut got = [0u8; REC_CAP];
-        let (_, made, _) = rec_fetch(&mut got);
-        assert!(made == 0, "[C10] no MAC is computed for an unsigned response");
-    }
+    check_response(response, buf_ptr, x, aw, out, &key, &mac, oid, &time, &now);
     kani::cover!(true, "exchange completed");
     core::mem::forget(tsig_rr);
-    core::mem::forget(keys);
-    core::mem::forget(question);
-    core::mem::forget(ret_mac);
 }
 
-macro_rules! exchange_harness {
-    ($name:ident, $unwind:literal, $l:literal, $n:literal, $alg:expr, $key:expr, $accept:literal, $clock:expr, $up:literal) => {
+macro_rules! c10_stubs {
+    ($name:ident, $unwind:literal, $body:expr) => {
         #[kani::proof]
         #[kani::unwind($unwind)]
         #[kani::stub(crate::message::tsig::Algorithm::make_authenticator, crate::message::tsig::kani_tsig_mac::recording_authenticator)]
@@ -567,84 +641,95 @@ macro_rules! exchange_harness {
         #[kani::stub(rec_force, crate::message::tsig::kani_tsig_mac::rec_force_impl)]
         #[kani::stub(rec_tag, crate::message::tsig::kani_tsig_mac::rec_tag_impl)]
         fn $name() {
-            exchange::<$l, $n>($alg, $key, $accept, $clock, $up);
+            $body
         }
     };
 }
 
 // RDATA length N = algorithm name (13 hmac-sha256., 11 hmac-sha1., 11 hmac-sha7.) + 16 + L
 
-// @harness name=c10_ok_sha256_l32 props=C10 tier=quick mem=6 t=1200 stubs="S1,S5,S5a,S5b,S8" kani="--no-assertion-reach-checks"
-//   fn="find_tsig_algorithm_or_write_error,find_tsig_key_or_write_error,verify_tsig_and_write_tsig_rr,ReadTsigRr::try_from,ReadTsigRr::verify_request,verification_core,check_mac_size,check_time,PreparedTsigRr::new_from_read,Writer::set_tsig,Writer::finish_with_mac,PreparedTsigRr::sign_response"
-//   bound="17-octet query (symbolic ID, flags, QTYPE, QCLASS) + TSIG RR: key 'k.', hmac-sha256, 32 symbolic MAC octets, symbolic original ID and error field; key map {k. -> (hmac-sha256, 2 symbolic octets)}; MAC model answers 'match'; time signed T0, fudge 300, now = T0 + 300 (edge of the window); 512-octet response buffer; unwind 34"
+// ---- step 3: verification and the response TSIG
+
+// @harness name=c10_ok_sha256_l32 props=C10 tier=quick mem=6 t=1800 stubs="S5,S5a,S8" kani="--no-assertion-reach-checks"
+//   fn="verify_tsig_and_write_tsig_rr,ReadTsigRr::try_from,ReadTsigRr::verify_request,verification_core,check_mac_size,check_time,PreparedTsigRr::new_from_read,Writer::set_tsig,Writer::finish_with_mac,PreparedTsigRr::sign_response"
+//   bound="17-octet query (symbolic ID, flags, QTYPE, QCLASS) + TSIG RR: key 'k.', hmac-sha256, 32 symbolic MAC octets, symbolic original ID and error field; 2 symbolic key octets; MAC model answers 'match'; time signed T0, fudge 300, now = T0 + 300 (edge of the window); 512-octet response buffer; unwind 34"
 //   sym="id, flags, qtype, qclass, key:[u8;2], mac:[u8;32], original_id, error"
-exchange_harness!(c10_ok_sha256_l32, 34, 32, 61, AlgSel::Sha256, KeySel::Match, true, Clock::At(300), false);
+c10_stubs!(c10_ok_sha256_l32, 34, verify_case::<32, 61>(AlgSel::Sha256, true, Clock::At(300), false));
 
-// @harness name=c10_ok_sha1_l10_early_upcase props=C10 tier=quick mem=6 t=1200 stubs="S1,S5,S5a,S5b,S8" kani="--no-assertion-reach-checks"
-//   fn="find_tsig_algorithm_or_write_error,find_tsig_key_or_write_error,verify_tsig_and_write_tsig_rr,ReadTsigRr::try_from,verification_core,check_mac_size,check_time,Writer::finish_with_mac,PreparedTsigRr::sign_response"
-//   bound="as c10_ok_sha256_l32 with hmac-sha1, a MAC truncated to 10 octets (the minimum), owner 'K.' and algorithm 'HMAC-SHA1.' in upper case, now = T0 - 300 (early edge); unwind 22"
+// @harness name=c10_ok_sha1_l10_early_upcase props=C10 tier=quick mem=6 t=1800 stubs="S5,S5a,S8" kani="--no-assertion-reach-checks"
+//   fn="verify_tsig_and_write_tsig_rr,ReadTsigRr::try_from,verification_core,check_mac_size,check_time,Writer::finish_with_mac,PreparedTsigRr::sign_response"
+//   bound="as c10_ok_sha256_l32 with hmac-sha1, a MAC truncated to 10 octets (the minimum), owner 'K.' and algorithm 'HMAC-SHA1.' in upper case, now = T0 - 300 (early edge); unwind 34"
 //   sym="id, flags, qtype, qclass, key:[u8;2], mac:[u8;10], original_id, error"
-exchange_harness!(c10_ok_sha1_l10_early_upcase, 22, 10, 37, AlgSel::Sha1, KeySel::Match, true, Clock::At(-300), true);
+c10_stubs!(c10_ok_sha1_l10_early_upcase, 34, verify_case::<10, 37>(AlgSel::Sha1, true, Clock::At(-300), true));
 
-// @harness name=c10_badtime_sha1_l20_late props=C10 tier=quick mem=6 t=1200 stubs="S1,S5,S5a,S5b,S8" kani="--no-assertion-reach-checks"
+// @harness name=c10_badtime_sha1_l20_late props=C10 tier=quick mem=6 t=1800 stubs="S5,S5a,S8" kani="--no-assertion-reach-checks"
 //   fn="verify_tsig_and_write_tsig_rr,check_time,PreparedTsigRr::new_from_read,PreparedTsigRr::other,Writer::finish_with_mac,PreparedTsigRr::sign_response"
-//   bound="hmac-sha1, full 20-octet MAC that the MAC model accepts, now = T0 + 301 (one second past the window): NOTAUTH/BADTIME, signed, other data = server time; unwind 22"
+//   bound="hmac-sha1, full 20-octet MAC that the MAC model accepts, now = T0 + 301 (one second past the window): NOTAUTH/BADTIME, signed, other data = server time; unwind 34"
 //   sym="id, flags, qtype, qclass, key:[u8;2], mac:[u8;20], original_id, error"
-exchange_harness!(c10_badtime_sha1_l20_late, 22, 20, 47, AlgSel::Sha1, KeySel::Match, true, Clock::At(301), false);
+c10_stubs!(c10_badtime_sha1_l20_late, 34, verify_case::<20, 47>(AlgSel::Sha1, true, Clock::At(301), false));
 
-// @harness name=c10_badtime_sha256_l16_early props=C10 tier=thorough mem=6 t=1200 stubs="S1,S5,S5a,S5b,S8" kani="--no-assertion-reach-checks"
+// @harness name=c10_badtime_sha256_l16_early props=C10 tier=thorough mem=6 t=1800 stubs="S5,S5a,S8" kani="--no-assertion-reach-checks"
 //   fn="verify_tsig_and_write_tsig_rr,check_time,PreparedTsigRr::new_from_read,Writer::finish_with_mac"
 //   bound="hmac-sha256, MAC truncated to 16, accepted by the MAC model, now = T0 - 301: BADTIME; unwind 34"
 //   sym="id, flags, qtype, qclass, key:[u8;2], mac:[u8;16], original_id, error"
-exchange_harness!(c10_badtime_sha256_l16_early, 34, 16, 45, AlgSel::Sha256, KeySel::Match, true, Clock::At(-301), false);
+c10_stubs!(c10_badtime_sha256_l16_early, 34, verify_case::<16, 45>(AlgSel::Sha256, true, Clock::At(-301), false));
 
-// @harness name=c10_badsig_sha256_l32 props=C10 tier=quick mem=6 t=1200 stubs="S1,S5,S5a,S5b,S8" kani="--no-assertion-reach-checks"
+// @harness name=c10_badsig_sha256_l32 props=C10 tier=quick mem=6 t=1800 stubs="S5,S5a,S8" kani="--no-assertion-reach-checks"
 //   fn="verify_tsig_and_write_tsig_rr,verification_core,Writer::set_tsig,Writer::finish_with_mac,PreparedTsigRr::unsigned"
 //   bound="hmac-sha256, 32-octet MAC that the MAC model rejects; time signed, fudge and now fully symbolic: NOTAUTH/BADSIG, empty MAC, whatever the time; unwind 34"
 //   sym="id, flags, qtype, qclass, key, mac:[u8;32], original_id, error, time:[u8;6], fudge:u16, now:[u8;6]"
-exchange_harness!(c10_badsig_sha256_l32, 34, 32, 61, AlgSel::Sha256, KeySel::Match, false, Clock::Any, false);
+c10_stubs!(c10_badsig_sha256_l32, 34, verify_case::<32, 61>(AlgSel::Sha256, false, Clock::Any, false));
 
-// @harness name=c10_badsig_sha1_l20 props=C10 tier=thorough mem=6 t=1200 stubs="S1,S5,S5a,S5b,S8" kani="--no-assertion-reach-checks"
-//   fn="verify_tsig_and_write_tsig_rr" bound="hmac-sha1, 20-octet MAC rejected by the MAC model; symbolic times; unwind 22"
+// @harness name=c10_badsig_sha1_l20 props=C10 tier=thorough mem=6 t=1800 stubs="S5,S5a,S8" kani="--no-assertion-reach-checks"
+//   fn="verify_tsig_and_write_tsig_rr" bound="hmac-sha1, 20-octet MAC rejected by the MAC model; symbolic times; unwind 34"
 //   sym="id, flags, qtype, qclass, key, mac:[u8;20], original_id, error, time, fudge, now"
-exchange_harness!(c10_badsig_sha1_l20, 22, 20, 47, AlgSel::Sha1, KeySel::Match, false, Clock::Any, false);
+c10_stubs!(c10_badsig_sha1_l20, 34, verify_case::<20, 47>(AlgSel::Sha1, false, Clock::Any, false));
 
-// @harness name=c10_badkey_unknown_alg_l10 props=C10 tier=quick mem=6 t=1200 stubs="S1,S5,S5a,S5b,S8" kani="--no-assertion-reach-checks"
-//   fn="find_tsig_algorithm_or_write_error,PreparedTsigRr::new_from_read,Writer::set_tsig,Writer::finish_with_mac,PreparedTsigRr::unsigned"
-//   bound="algorithm name 'hmac-sha7.' (not defined), 10 MAC octets; symbolic times: NOTAUTH/BADKEY, empty MAC, the response TSIG repeats the unknown algorithm name; unwind 22"
-//   sym="id, flags, qtype, qclass, key, mac:[u8;10], original_id, error, time, fudge, now"
-exchange_harness!(c10_badkey_unknown_alg_l10, 22, 10, 37, AlgSel::Unknown, KeySel::Match, true, Clock::Any, false);
-
-// @harness name=c10_badkey_absent_sha256_l32 props=C10 tier=quick mem=6 t=1200 stubs="S1,S5,S5a,S5b,S8" kani="--no-assertion-reach-checks"
-//   fn="find_tsig_key_or_write_error,PreparedTsigRr::new_from_read,Writer::set_tsig,Writer::finish_with_mac"
-//   bound="hmac-sha256, key map {j. -> ...} (no key 'k.'): NOTAUTH/BADKEY; symbolic times; unwind 34"
-//   sym="id, flags, qtype, qclass, key, mac:[u8;32], original_id, error, time, fudge, now"
-exchange_harness!(c10_badkey_absent_sha256_l32, 34, 32, 61, AlgSel::Sha256, KeySel::Absent, true, Clock::Any, false);
-
-// @harness name=c10_badkey_other_alg_sha1_l20 props=C10 tier=quick mem=6 t=1200 stubs="S1,S5,S5a,S5b,S8" kani="--no-assertion-reach-checks"
-//   fn="find_tsig_key_or_write_error" bound="request names hmac-sha1 but key 'k.' is configured for hmac-sha256: NOTAUTH/BADKEY; symbolic times; unwind 22"
-//   sym="id, flags, qtype, qclass, key, mac:[u8;20], original_id, error, time, fudge, now"
-exchange_harness!(c10_badkey_other_alg_sha1_l20, 22, 20, 47, AlgSel::Sha1, KeySel::OtherAlg, true, Clock::Any, false);
-
-// @harness name=c10_formerr_sha256_l0 props=C10 tier=quick mem=6 t=1200 stubs="S1,S5,S5a,S5b,S8" kani="--no-assertion-reach-checks"
+// @harness name=c10_formerr_sha256_l0 props=C10 tier=quick mem=6 t=1800 stubs="S5,S5a,S8" kani="--no-assertion-reach-checks"
 //   fn="verify_tsig_and_write_tsig_rr,check_mac_size" bound="hmac-sha256 with an empty MAC: FORMERR, no answer data; symbolic times; unwind 34"
 //   sym="id, flags, qtype, qclass, key, original_id, error, time, fudge, now"
-exchange_harness!(c10_formerr_sha256_l0, 34, 0, 29, AlgSel::Sha256, KeySel::Match, true, Clock::Any, false);
+c10_stubs!(c10_formerr_sha256_l0, 34, verify_case::<0, 29>(AlgSel::Sha256, true, Clock::Any, false));
 
-// @harness name=c10_formerr_sha256_l33 props=C10 tier=quick mem=6 t=1200 stubs="S1,S5,S5a,S5b,S8" kani="--no-assertion-reach-checks"
+// @harness name=c10_formerr_sha256_l33 props=C10 tier=quick mem=6 t=1800 stubs="S5,S5a,S8" kani="--no-assertion-reach-checks"
 //   fn="verify_tsig_and_write_tsig_rr,check_mac_size" bound="hmac-sha256 with a 33-octet MAC (longer than the output): FORMERR; symbolic times; unwind 35"
 //   sym="id, flags, qtype, qclass, key, mac:[u8;33], original_id, error, time, fudge, now"
-exchange_harness!(c10_formerr_sha256_l33, 35, 33, 62, AlgSel::Sha256, KeySel::Match, true, Clock::Any, false);
+c10_stubs!(c10_formerr_sha256_l33, 35, verify_case::<33, 62>(AlgSel::Sha256, true, Clock::Any, false));
 
-// @harness name=c10_formerr_sha256_l10 props=C10 tier=thorough mem=6 t=1200 stubs="S1,S5,S5a,S5b,S8" kani="--no-assertion-reach-checks"
+// @harness name=c10_formerr_sha256_l10 props=C10 tier=thorough mem=6 t=1800 stubs="S5,S5a,S8" kani="--no-assertion-reach-checks"
 //   fn="verify_tsig_and_write_tsig_rr,check_mac_size" bound="hmac-sha256 with a 10-octet MAC (acceptable for hmac-sha1 only): FORMERR; unwind 34"
 //   sym="id, flags, qtype, qclass, key, mac:[u8;10], original_id, error, time, fudge, now"
-exchange_harness!(c10_formerr_sha256_l10, 34, 10, 39, AlgSel::Sha256, KeySel::Match, true, Clock::Any, false);
+c10_stubs!(c10_formerr_sha256_l10, 34, verify_case::<10, 39>(AlgSel::Sha256, true, Clock::Any, false));
 
-// @harness name=c10_formerr_sha1_l21 props=C10 tier=thorough mem=6 t=1200 stubs="S1,S5,S5a,S5b,S8" kani="--no-assertion-reach-checks"
-//   fn="verify_tsig_and_write_tsig_rr,check_mac_size" bound="hmac-sha1 with a 21-octet MAC: FORMERR; unwind 23"
+// @harness name=c10_formerr_sha1_l21 props=C10 tier=thorough mem=6 t=1800 stubs="S5,S5a,S8" kani="--no-assertion-reach-checks"
+//   fn="verify_tsig_and_write_tsig_rr,check_mac_size" bound="hmac-sha1 with a 21-octet MAC: FORMERR; unwind 34"
 //   sym="id, flags, qtype, qclass, key, mac:[u8;21], original_id, error, time, fudge, now"
-exchange_harness!(c10_formerr_sha1_l21, 23, 21, 48, AlgSel::Sha1, KeySel::Match, true, Clock::Any, false);
+c10_stubs!(c10_formerr_sha1_l21, 34, verify_case::<21, 48>(AlgSel::Sha1, true, Clock::Any, false));
+
+// ---- steps 1 and 2: algorithm and key lookup
+
+// @harness name=c10_lookup_unknown_alg props=C10 tier=quick mem=6 t=1800 stubs="S1,S5b,S8" kani="--no-assertion-reach-checks"
+//   fn="find_tsig_algorithm_or_write_error,PreparedTsigRr::new_from_read,Writer::set_tsig,Writer::finish_with_mac,PreparedTsigRr::unsigned"
+//   bound="algorithm name 'hmac-sha7.' (not defined), 10 MAC octets; symbolic times: NOTAUTH/BADKEY, empty MAC, the response TSIG repeats the unknown algorithm name; unwind 18"
+//   sym="id, flags, qtype, qclass, key, mac:[u8;10], original_id, error, time, fudge, now"
+c10_stubs!(c10_lookup_unknown_alg, 18, lookup_case::<37>(AlgSel::Unknown, KeySel::Match, false));
+
+// @harness name=c10_lookup_no_key_sha256 props=C10 tier=quick mem=6 t=1800 stubs="S1,S5b,S8" kani="--no-assertion-reach-checks"
+//   fn="find_tsig_algorithm_or_write_error,find_tsig_key_or_write_error,PreparedTsigRr::new_from_read,Writer::set_tsig,Writer::finish_with_mac"
+//   bound="hmac-sha256, empty key map: NOTAUTH/BADKEY; symbolic times; unwind 18"
+//   sym="id, flags, qtype, qclass, mac:[u8;10], original_id, error, time, fudge, now"
+c10_stubs!(c10_lookup_no_key_sha256, 18, lookup_case::<39>(AlgSel::Sha256, KeySel::Absent, false));
+
+// @harness name=c10_lookup_other_alg_sha1 props=C10 tier=thorough mem=8 t=3400 stubs="S1,S5b,S8" kani="--no-assertion-reach-checks"
+//   fn="find_tsig_algorithm_or_write_error,find_tsig_key_or_write_error,<Name as PartialEq>::eq"
+//   bound="request names hmac-sha1 but key 'k.' is configured for hmac-sha256 (one-entry key map): NOTAUTH/BADKEY; symbolic times; unwind 18"
+//   sym="id, flags, qtype, qclass, key, mac:[u8;10], original_id, error, time, fudge, now"
+c10_stubs!(c10_lookup_other_alg_sha1, 17, lookup_case::<37>(AlgSel::Sha1, KeySel::OtherAlg, false));
+
+// @harness name=c10_lookup_match_sha1_upcase props=C10 tier=thorough mem=8 t=3400 stubs="S1,S5b,S8" kani="--no-assertion-reach-checks"
+//   fn="find_tsig_algorithm_or_write_error,find_tsig_key_or_write_error,<Name as PartialEq>::eq"
+//   bound="owner 'K.' and algorithm 'HMAC-SHA1.' in upper case, key map {k. -> (hmac-sha1, 2 symbolic octets)}: algorithm and key are found, the response is left untouched; unwind 18"
+//   sym="id, flags, qtype, qclass, key, mac:[u8;10], original_id, error, time, fudge, now"
+c10_stubs!(c10_lookup_match_sha1_upcase, 17, lookup_case::<37>(AlgSel::Sha1, KeySel::Match, true));
 
 // --------------------------------------------------------------------------
 // the real Algorithm::from_name (no S5b)
